@@ -658,6 +658,8 @@ class NF:
                     return self.closure_apply(clo, list(args), cenv)
             if any(decl.endswith(s) for s in IDENTITY_FNS) and len(args) == 1:
                 return args[0]
+            if not args and decl.endswith(("string::String::new", "String::new")):
+                return ("lit", "")
             f = H.strip(e["f"])
             if f.get("k") == "Path" and f.get("dk", "").startswith("Ctor"):
                 short = (f.get("path") or "?").rsplit("::", 1)[-1]
@@ -1252,26 +1254,63 @@ def normalize_lines(events):
             out.append(ev)
             i += 1
     out = [ev for ev in out if ctx_feasible(ev.ctx)]
+    for ev in out:
+        ev.ctx = tuple(c for c in ev.ctx if not _constant_true(c))
     out = _merge_complementary(out)
     for k, ev in enumerate(out):
         ev.order = k
     return out
 
 
+def _constant_true(c):
+    """a branch condition that always holds on the branch taken: `if let Some(x) = Some(v)`"""
+    if c[0] != "alt":
+        return False
+    k, v = decision(c[1], c[2])
+    if k[0] == "some":
+        base = k[1]
+        if isinstance(base, tuple) and base[0] == "call" and base[1] == "Some" and v:
+            return True
+        if ((isinstance(base, tuple) and base[0] == "lit" and base[1] is None) or nf_str(base) == "None") and not v:
+            return True
+    return False
+
+
 def _merge_complementary(events):
-    """Two adjacent emits of the same line from the same statement under `c` and `not c` (all else equal) are one emit without that
-    condition: the line is written either way (a multi-line hole chosen by `c` in front of it made it appear once per choice)."""
+    """The variants of one statement (a multi-line hole chosen by a condition `c` in front of a fixed last line) all end in the
+    same line: that line is written either way, so it is one emit without the condition, after the lines that differ.
+    `[x (c)] [y (!c), x (!c)]` -> `[y (!c)] [x]`."""
     out = []
-    for ev in events:
-        prev = out[-1] if out else None
-        if prev is not None and ev.kind == "emit" and prev.kind == "emit" and prev.node is ev.node and prev.parts == ev.parts \
-                and len(prev.ctx) == len(ev.ctx) and prev.ctx and prev.ctx[:-1] == ev.ctx[:-1] \
-                and prev.ctx[-1][0] == "alt" and ev.ctx[-1][0] == "alt":
-            d1, d2 = decision(prev.ctx[-1][1], prev.ctx[-1][2]), decision(ev.ctx[-1][1], ev.ctx[-1][2])
-            if d1[0] == d2[0] and d1[1] != d2[1]:
-                prev.ctx = prev.ctx[:-1]
-                continue
-        out.append(ev)
+    i = 0
+    n = len(events)
+    while i < n:
+        ev = events[i]
+        if ev.kind != "emit":
+            out.append(ev)
+            i += 1
+            continue
+        j = i
+        while j < n and events[j].kind == "emit" and events[j].node is ev.node:
+            j += 1
+        run = events[i:j]
+        variants = []
+        for e in run:
+            if variants and variants[-1][0].ctx == e.ctx:
+                variants[-1].append(e)
+            else:
+                variants.append([e])
+        merged = None
+        if len(variants) == 2:
+            va, vb = variants
+            ca, cb = va[0].ctx, vb[0].ctx
+            if len(ca) == len(cb) and ca and ca[:-1] == cb[:-1] and ca[-1][0] == "alt" and cb[-1][0] == "alt" and va[-1].parts == vb[-1].parts:
+                d1, d2 = decision(ca[-1][1], ca[-1][2]), decision(cb[-1][1], cb[-1][2])
+                if d1[0] == d2[0] and d1[1] != d2[1]:
+                    last = va[-1]
+                    last.ctx = ca[:-1]
+                    merged = va[:-1] + vb[:-1] + [last]
+        out += merged if merged is not None else run
+        i = j
     return out
 
 
@@ -1887,6 +1926,11 @@ def nf_simplify(n):
             pr = project(base, int(n[2]))      # a component of a tuple chosen by a test: the test chooses between the components
             if pr != n:
                 return nf_simplify(pr) if pr[0] != "field" else pr
+        if base[0] == "ifelse" and all(isinstance(b_, tuple) and b_[0] == "call" and isinstance(b_[1], str) and b_[1].startswith("struct:") for b_ in base[2:4]):
+            # a field of a struct chosen by a test: `if c { S { f: a } } else { S { f: b } }.f`
+            return ("ifelse", base[1], nf_simplify(("field", base[2], n[2])), nf_simplify(("field", base[3], n[2])))
+    if n and n[0] == "payload" and n[1] in ("Some", "Ok") and isinstance(n[2], tuple) and n[2][0] == "call" and n[2][1] == n[1] and len(n[2][2]) == 1:
+        return n[2][2][0]      # the payload of a literal `Some(x)` is x
     return n
 
 
